@@ -63,6 +63,13 @@ def applyUpdate (fate : String → Fate) (cur : Entries) (des : List (String × 
   let r := startPhase fate s.1 next
   { entries := commit r.entries, effects := s.2 ++ r.effects, next := r.next }
 
+/-- an update cut short: the run context ended while `executeActions` waited out `restartDelay` after its stop phase;
+it returns what it has, nothing is started, and `commit` keeps the entries that were to be started without a runner
+(the event loop then sees the ended context and shuts down) -/
+def applyUpdateCut (cur : Entries) (des : List (String × Nat)) (next : Nat) : Res :=
+  let s := stopPhase (buildPending cur des)
+  { entries := commit s.1, effects := s.2, next := next }
+
 /-- `Runner.shutdown`: the update to the empty map (no start can happen, the fates are irrelevant) -/
 def shutdown (cur : Entries) (next : Nat) : Res := applyUpdate (fun _ => .ok) cur [] next
 
@@ -86,6 +93,13 @@ def runCluster (steps : List Step) : Res :=
   let a := runSteps steps { entries := [], effects := [], next := 1 }
   let r := shutdown a.entries a.next
   { entries := r.entries, effects := a.effects ++ r.effects, next := r.next }
+
+/-- a whole `Run()` whose last update is cut short by the end of the context -/
+def runClusterCut (steps : List Step) (last : List (String × Nat)) : Res :=
+  let a := runSteps steps { entries := [], effects := [], next := 1 }
+  let c := applyUpdateCut a.entries last a.next
+  let r := shutdown c.entries c.next
+  { entries := r.entries, effects := a.effects ++ c.effects ++ r.effects, next := r.next }
 
 /-- "started and not yet stopped", read off an effect log (every instance is created once) -/
 def Live (effs : List Eff) (i : Nat) : Prop :=
